@@ -683,6 +683,9 @@ func (v *Protocol) readBasicHeader() (format formatType, cid chunkID, err error)
 		return
 	}
 
+	// Whether the basic header is the 3B version.
+	is3B := cid == 1
+
 	// 64-319, 2B chunk header
 	if err = binary.Read(v.r, binary.BigEndian, &t); err != nil {
 		return format, cid, oe.Wrapf(err, "read basic header for cid=%v", cid)
@@ -690,7 +693,7 @@ func (v *Protocol) readBasicHeader() (format formatType, cid chunkID, err error)
 	cid = chunkID(64 + uint32(t))
 
 	// 64-65599, 3B chunk header
-	if cid == 1 {
+	if is3B {
 		if err = binary.Read(v.r, binary.BigEndian, &t); err != nil {
 			return format, cid, oe.Wrapf(err, "read basic header for cid=%v", cid)
 		}
